@@ -105,6 +105,11 @@ def assumedNameOrder : List String :=
 /-- `Px.toKids`: the support is kept for a clade that has children (`match k with | [] => NIL | _ :: _ => …`) -/
 def assumedSupportGuard : String := "len(c.Clades) > 0"
 
+/-- the same fact semantically: the guard evaluated on clades with 0, 1, 2, 3 children — what `Px.toKids`
+    computes (`match k with | [] => NIL | _ :: _ => conf`): an equivalent spelling of the comparison
+    (`>= 1`, `!= 0`) gives the same row -/
+def assumedSupportProbes : List Bool := [0, 1, 2, 3].map fun n => decide (n > 0)
+
 /-- `readMulti` / `readFirst`: which parser each format constant reaches (the Newick multi-reader goes
     through ReadUntilSemiColon, the single-tree reader hands the whole stream to one newick.Parser) -/
 def assumedMultiReaders : List (String × String) :=
